@@ -79,6 +79,11 @@ def gen(rng: Any, prop: str, tier: str) -> dict[str, Any]:
                     if rng.random() < 0.3:
                         # existing data under a quoted, lower-case name (stored verbatim): connecting must not touch it either
                         g.exec("root", {"t": "create_table", "ref": [d, s, '"raw_t"'], "cols": [["A", "INT"], ["B", "VARCHAR(12)"]], "comment": "quoted name"})
+    # names with an underscore next to look-alikes that differ only there (DB_1 / DBX1): an existence test by pattern would confuse them
+    lookalike = rng.random() < 0.15
+    if lookalike:
+        g.exec("root", {"t": "create_db", "name": "DBX1"})
+        g.exec("root", {"t": "create_schema", "db": "DBX1", "name": "SX1"})
     sids = ["s0", "s1", "s2"]
     n_conn = rng.randint(2, 6)
     restarted = False
@@ -88,8 +93,8 @@ def gen(rng: Any, prop: str, tier: str) -> dict[str, Any]:
             g.ops.append({"s": "root", "k": "restart"})
             g.m.restart()
             restarted = True
-        d = rng.choice(DB_ARGS)
-        s = rng.choice(SCHEMA_ARGS)
+        d = rng.choice(["DB_1", "db_1", "DBX1", None] if lookalike else DB_ARGS)
+        s = rng.choice(["S_1", "s_1", "SX1", None] if lookalike else SCHEMA_ARGS)
         ctx0 = g.m.session_ctx(sid) if sid in g.m.sessions and not g.m.sessions[sid].get("closed") else (None, None)
         if (rng.random() < 0.25 and ctx0[0] and ctx0[1] and ctx0[1] != "INFORMATION_SCHEMA" and g.m.sessions.get("root") and not g.m.detached
                 and not g.m.dbs[ctx0[0]][ctx0[1]]["tables"] and not g.m.dbs[ctx0[0]][ctx0[1]]["views"]
